@@ -406,8 +406,10 @@ def run_numpy(cfg, path, excs, seed, batched):
     def flush(rows):
         if not rows:
             return None
-        # a no-op row in front and behind
-        rows = [(0, True, 0, 0, 0, 0, None)] + rows + [(3, False, 0, 0, 0, 0, None)]
+        # a no-op row in front and behind; the fields an instruction does not use are documented as ignored, so they hold
+        # arbitrary values (an off-grid price, a huge id, ...) and not zeros
+        junk_p = cfg["tick"] + 1 if cfg["tick"] > 1 else 7
+        rows = [(0, True, 5, 9, junk_p, (1 << 64) - 2, None)] + [r if r[0] == 1 else (r[0], True, 3, 8, junk_p, r[5], r[6]) for r in rows] + [(3, False, 2, 1, U32 - 1, 4, None)]
         ids = e.submit_instructions((np.array([r[0] for r in rows], dtype=u32), np.array([r[1] for r in rows], dtype=bool),
                                      np.array([r[2] for r in rows], dtype=u32), np.array([r[3] for r in rows], dtype=u32),
                                      np.array([r[4] for r in rows], dtype=u32), np.array([r[5] for r in rows], dtype=u64)))
